@@ -74,6 +74,7 @@ type l1World struct {
 	ownAll   bool // C16 after a re-import: every deviation from the model is a deviation from the original chain
 	replicas []*l1Replica
 	recent   [][]byte // recently broadcast transactions (client traffic re-uses them)
+	avoidBridge uint64 // see pickBridge
 	burstTail   bool   // the last operation of a burst block: a deletion somewhere in the long log
 	burstBridge uint64 // while non-zero every generated operation is an output proposal for this bridge (long logs)
 	lenient  bool     // deviations owned by other properties are logged, not fatal (state comparison right after a genesis restart)
@@ -194,6 +195,16 @@ func (w *l1World) pickSigner(auth ...string) string {
 
 func (w *l1World) pickBridge(m *modelL1, allowMissing bool) uint64 {
 	ids := m.bridgeIDs()
+	if w.avoidBridge != 0 {
+		// background traffic of the other rollups on this L1 never touches the simulated L2's own bridge
+		var rest []uint64
+		for _, id := range ids {
+			if id != w.avoidBridge {
+				rest = append(rest, id)
+			}
+		}
+		ids = rest
+	}
 	if w.burstBridge != 0 && m.Bridges[w.burstBridge] != nil {
 		return w.burstBridge
 	}
@@ -510,7 +521,10 @@ func (w *l1World) genOp(spec *modelL1, bc blockCtx) (sdk.Msg, string, string) {
 		fa, _ := sdk.AccAddressFromBech32(from)
 		var to string
 		ids := spec.bridgeIDs()
-		if len(ids) > 0 && w.r.Chance(1, 2) {
+		if w.r.Chance(1, 8) {
+			// the escrow address of a bridge that does not exist yet (anyone can compute and fund it)
+			to = sdk.AccAddress(prover.Escrow(spec.NextBridgeID + uint64(w.r.Intn(2)))).String()
+		} else if len(ids) > 0 && w.r.Chance(1, 2) {
 			to = sdk.AccAddress(prover.Escrow(ids[w.r.Intn(len(ids))])).String()
 		} else {
 			to = w.pickUser()
@@ -581,7 +595,7 @@ func (w *l1World) genRoot(spec *modelL1, b *mBridge) (prover.Hash, string) {
 	}
 	dup := w.r.Chance(1, 2)
 	t := prover.Build(hs, dup)
-	c := &commitment{Version: byte(w.r.Intn(2)), Storage: t.Root(), BlockHash: w.randHash(), Tree: t, Leaves: leaves}
+	c := &commitment{Version: []byte{0, 1, 0, 1, 2, 3, 0x7f, 0xff}[w.r.Intn(8)], Storage: t.Root(), BlockHash: w.randHash(), Tree: t, Leaves: leaves}
 	root := prover.OutputRoot(c.Version, c.Storage, c.BlockHash)
 	w.commits[root] = c
 	return root, fmt.Sprintf("tree(leaves=%d,dup=%v)", len(leaves), dup)
@@ -599,6 +613,9 @@ func hashes(hs []prover.Hash) [][]byte {
 func (w *l1World) genClaim(spec *modelL1, bc blockCtx) (sdk.Msg, string) {
 	var cands [][2]uint64
 	for _, id := range spec.bridgeIDs() {
+		if id == w.avoidBridge {
+			continue
+		}
 		b := spec.Bridges[id]
 		for idx := uint64(1); idx < b.NextOutIdx; idx++ {
 			if o := b.Outputs[idx]; o != nil && w.commits[o.Root] != nil && len(w.commits[o.Root].Leaves) > 0 {
